@@ -426,7 +426,7 @@ def classify_handler(fn, where, load_pred, env):
                 for c in find_calls([s], load_pred):
                     arg = c.args[0] if c.args else None
                     loads.append(dict(call=c, suffix=path_suffix(arg, env) if arg is not None else None,
-                                      guards=list(guards), tries=list(tries)))
+                                      guards=list(guards), tries=list(tries), env=dict(env)))
 
     walk(strip_doc(fn.body), [], [], env)
     return loads
@@ -441,6 +441,23 @@ def handler_excs(t, where):
     return names
 
 
+def _flag_protocol(fn, t, flag, reload_pred):
+    """`flag = False` before the try `t`, `flag = True` right after the reload call inside its body"""
+    init = any(isinstance(x, ast.Assign) and len(x.targets) == 1 and isinstance(x.targets[0], ast.Name)
+               and x.targets[0].id == flag and isinstance(x.value, ast.Constant) and x.value.value is False
+               for x in ast.walk(fn))
+    seen_call, set_true = False, False
+    for x in t.body:
+        if find_calls([x], reload_pred):
+            seen_call = True
+        elif seen_call and isinstance(x, ast.Assign) and len(x.targets) == 1 and isinstance(x.targets[0], ast.Name) \
+                and x.targets[0].id == flag and isinstance(x.value, ast.Constant) and x.value.value is True:
+            set_true = True
+    others = [x for x in ast.walk(fn) if isinstance(x, ast.Assign) and any(isinstance(tg, ast.Name) and tg.id == flag
+                                                                          for tg in x.targets)]
+    return init and set_true and len(others) == 2
+
+
 def extract_weights_handler(src_prop, src_flow):
     where = "FlowProposal.resume"
     fn = src_prop.func(where)
@@ -451,13 +468,14 @@ def extract_weights_handler(src_prop, src_flow):
     if len(prim) != 1:
         raise Untranslatable(f"{where}: expected one primary self.flow.reload_weights(weights_file) call, found {len(prim)}")
     p = prim[0]
-    skip_none = any(g[0] == "cond" and g[1].replace(" ", "") == "weights_fileisnotNone" for g in p["guards"])
+    is_none_guard = lambda g: g[0] == "cond" and g[1].replace(" ", "") == "weights_fileisnotNone"  # noqa
+    skip_none = any(is_none_guard(g) for g in p["guards"])
     guard = any(g[0] == "exists" and g[1] == "" for g in p["guards"])
-    others = [g for g in p["guards"] if not (g[0] == "exists" and g[1] == "") and
-              not (g[0] == "cond" and g[1].replace(" ", "") == "weights_fileisnotNone")]
+    others = [g for g in p["guards"] if not (g[0] == "exists" and g[1] == "") and not is_none_guard(g)]
     if others:
         raise Untranslatable(f"{where}: the weights reload sits under an unsupported condition {others[0][1]!r}")
     nodes = [fn]
+    base = dict(skip_none=skip_none, guard=guard, on_missing=False, reset_path=False, nodes=nodes)
     if not p["tries"]:
         # the try may live one level down: FlowModel.reload_weights / load_weights
         for qual, pred in (("FlowModel.reload_weights", lambda c: dotted(c.func) == "self.load_weights"),
@@ -471,7 +489,9 @@ def extract_weights_handler(src_prop, src_flow):
             if pr2[0]["tries"] or len(l2) > 1:
                 raise Untranslatable(f"{qual}: contains a try/except or a second load; put the fallback in "
                                      "FlowProposal.resume (shape described in the C11 report) or extend the translator")
-        return dict(skip_none=skip_none, guard=guard, excs=[], fallback="reraise", nodes=nodes)
+        if len(loads) > 1:
+            raise Untranslatable(f"{where}: a second weights load without a try around the first")
+        return dict(base, excs=[], fallback="reraise")
     if len(p["tries"]) != 1:
         raise Untranslatable(f"{where}: the weights reload sits in nested try blocks")
     t = p["tries"][0]
@@ -481,19 +501,49 @@ def extract_weights_handler(src_prop, src_flow):
     if any(contains_raise(h.body) for h in t.handlers) and excs:
         raise Untranslatable(f"{where}: some handlers re-raise and some do not")
     if not excs:
-        return dict(skip_none=skip_none, guard=guard, excs=exc_list_all(t, where), fallback="reraise", nodes=nodes)
-    sec = [l for l in loads if any(g[0] == "handler" and g[1] is t for g in l["guards"])]
+        if len(loads) > 1:
+            raise Untranslatable(f"{where}: a fallback load next to a re-raising handler")
+        return dict(base, excs=exc_list_all(t, where), fallback="reraise")
+    sec = [l for l in loads if l is not p]
     if not sec:
-        return dict(skip_none=skip_none, guard=guard, excs=excs, fallback="skip", nodes=nodes)
+        return dict(base, excs=excs, fallback="skip")
     if len(sec) != 1 or sec[0]["suffix"] != ".old":
-        raise Untranslatable(f"{where}: the except body must reload exactly `weights_file + '.old'`")
-    s = sec[0]
-    g2 = any(g[0] == "exists" and g[1] == ".old" for g in s["guards"])
-    inner_tries = [x for x in s["tries"] if x is not t]
+        raise Untranslatable(f"{where}: the fallback must reload exactly `weights_file + '.old'` once")
+    s2 = sec[0]
+    in_handler = any(g[0] == "handler" and g[1] is t for g in s2["guards"])
+    flags = [g for g in s2["guards"] if g[0] == "cond" and g[1].startswith("not ") and g[1][4:].isidentifier()]
+    on_missing = False
+    if not in_handler:
+        # sequential shape: `loaded = False; if exists: try: reload; loaded = True except …; if not loaded: <fallback>`
+        if len(flags) != 1 or not _flag_protocol(fn, t, flags[0][1][4:], is_reload):
+            raise Untranslatable(f"{where}: the fallback reload is neither inside the except body nor under "
+                                 "`if not <flag>` with flag=False before / flag=True right after the first reload")
+        on_missing = True
+    rest = [g for g in s2["guards"] if not (g[0] == "exists" and g[1] == ".old") and not is_none_guard(g)
+            and not (g[0] == "handler" and g[1] is t) and g not in flags
+            and not (in_handler and g[0] == "exists" and g[1] == "")]
+    if rest:
+        raise Untranslatable(f"{where}: the fallback reload sits under an unsupported condition {rest[0][1]!r}")
+    g2 = any(g[0] == "exists" and g[1] == ".old" for g in s2["guards"])
+    inner_tries = [x for x in s2["tries"] if x is not t]
     if len(inner_tries) > 1:
         raise Untranslatable(f"{where}: the fallback reload sits in nested try blocks")
     excs2 = handler_excs(inner_tries[0], where) if inner_tries else []
-    return dict(skip_none=skip_none, guard=guard, excs=excs, fallback=("loadOld", g2, excs2), nodes=nodes)
+    # `self.flow.weights_file = weights_file` right after the fallback reload, in the same block
+    reset = False
+    block = inner_tries[0].body if inner_tries else []
+    seen = False
+    for x in block:
+        if find_calls([x], is_reload):
+            seen = True
+        elif seen and isinstance(x, ast.Assign) and len(x.targets) == 1 and dotted(x.targets[0]) == "self.flow.weights_file":
+            if path_suffix(x.value, s2["env"]) != "":
+                raise Untranslatable(f"{where}: self.flow.weights_file is reset to something other than weights_file")
+            reset = True
+    for x in ast.walk(fn):
+        if isinstance(x, ast.Assign) and any(dotted(tg) == "self.flow.weights_file" for tg in x.targets) and not reset:
+            raise Untranslatable(f"{where}: assignment to self.flow.weights_file outside the recognised place")
+    return dict(base, excs=excs, fallback=("loadOld", g2, excs2), on_missing=on_missing, reset_path=reset)
 
 
 def exc_list_all(t, where):
@@ -687,7 +737,8 @@ def generate(repo):
               "/-- the weights reload in `FlowProposal.resume` -/",
               "def weightsHandler : WeightsHandler :=",
               f"  {{ skipWhenNone := {b(wh['skip_none'])}, guardExists := {b(wh['guard'])}, "
-              f"excs := {lean_excs(wh['excs'])}, fallback := {fb} }}", "",
+              f"excs := {lean_excs(wh['excs'])}, fallback := {fb}, "
+              f"onMissing := {b(wh['on_missing'])}, resetPath := {b(wh['reset_path'])} }}", "",
               "/-- `FlowSampler.check_resume` / `_resume_from_file`, for a given weights-reload shape -/",
               "def resumeCfgWith (h : WeightsHandler) : ResumeCfg :=",
               f"  {{ candidates := [{', '.join(suf(c) for c in cands)}], first := {suf(rf['first'])}, "
@@ -699,7 +750,8 @@ def generate(repo):
               "def protocol : Protocol := protocolWith weightsHandler", "",
               "end NessaiVerif.CrashFS.Gen", ""]
     info = dict(dump_true=lean_stmts(progs[True]), dump_false=lean_stmts(progs[False]), save_weights=lean_stmts(wprog),
-                handler=dict(skip_none=wh["skip_none"], guard=wh["guard"], excs=wh["excs"], fallback=wh["fallback"]),
+                handler=dict(skip_none=wh["skip_none"], guard=wh["guard"], excs=wh["excs"], fallback=wh["fallback"],
+                             on_missing=wh["on_missing"], reset_path=wh["reset_path"]),
                 resume=dict(candidates=cands, first=rf["first"], catch1=rf["catch1"], second=rf["second"],
                             catch2=rf["catch2"], reraise=rf["reraise"]),
                 temp_suffix=sfx.temp, headers=headers, wiring=[d for d, _ in facts])
